@@ -239,3 +239,17 @@ Qed.
 (* unbounded retries (-1) never end by exhaustion *)
 Lemma retry_unbounded k : is_continue (-1) k = true.
 Proof. reflexivity. Qed.
+
+(* ---------------- the answer as the host gives it ---------------- *)
+(* an answer without error is a success whatever handler comes along with it: the token continues, one request, no
+   error trace -- at any point of a retry history *)
+Theorem success_ignores_handler h attempts rest :
+  token attempts (interpret true (false, h) :: rest) = (1%nat, 0%nat, Continues).
+Proof. reflexivity. Qed.
+
+(* a handler obeyed whenever it is there: a success with "exit" queued stops the token, with "retry" queued the answered
+   task is requested again *)
+Lemma refuted_handler_obeyed_on_success :
+  token 0 [interpret false (false, Some HExit)] = (1%nat, 1%nat, Ended) /\
+  token 0 [interpret false (false, Some (HRetry 2)); interpret false (false, None)] = (2%nat, 1%nat, Continues).
+Proof. split; reflexivity. Qed.
